@@ -97,9 +97,10 @@ def _is_func(n: ast.AST) -> bool:
 
 
 class Project:
-    def __init__(self, sources: Dict[str, str], label: str = "memory"):
+    def __init__(self, sources: Dict[str, str], label: str = "memory", see_through: bool = True):
         self.sources = dict(sources)
         self.label = label
+        self.see_through = see_through
         self.modules: Dict[str, Module] = {}
         self.classes: Dict[str, ClassInfo] = {}  # module:Class
         self.funcs: Dict[str, FuncInfo] = {}  # module:qual
@@ -121,10 +122,14 @@ class Project:
                         sources[rel] = fh.read()
         return cls(sources, label=src_root)
 
+    def raw_view(self) -> "Project":
+        """The same sources read without seeing through new helpers (sa/inline.py)."""
+        return Project(self.sources, label=self.label + " (raw view)", see_through=False)
+
     def variant(self, edits: Dict[str, str]) -> "Project":
         s = dict(self.sources)
         s.update(edits)
-        return Project(s, label=self.label + "+edits")
+        return Project(s, label=self.label + "+edits", see_through=self.see_through)
 
     def digest(self, rels: Optional[Iterable[str]] = None) -> str:
         h = hashlib.sha256()
@@ -146,9 +151,23 @@ class Project:
                 tree = ast.parse(src, filename=rel)
             except SyntaxError as e:
                 raise AnalysisError(f"{rel}: does not parse: {e}")
+            from .normalize import normalize
+
+            normalize(tree)  # equivalent idioms are read in one spelling (sa/normalize.py); the text is untouched
             m = Module(name, rel, src, tree, is_pkg)
             self.modules[name] = m
         for m in self.modules.values():
+            self._index_imports(m)
+            self._index_defs(m, m.tree.body, prefix="", cls=None, parent=None)
+        from .inline import see_through_new_helpers
+
+        self.inliner = see_through_new_helpers(self) if self.see_through else None  # helpers the rules do not know are read at their call sites (sa/inline.py)
+
+    def _reindex(self) -> None:
+        self.classes.clear()
+        self.funcs.clear()
+        for m in self.modules.values():
+            m.imports.clear()
             self._index_imports(m)
             self._index_defs(m, m.tree.body, prefix="", cls=None, parent=None)
 
@@ -201,18 +220,41 @@ class Project:
             raise AnalysisError(f"anchor vanished: module {name}")
         return self.modules[name]
 
+    def _follow_reexport(self, module: str, qual: str):
+        """A definition that moved to another module and is imported back (re-exported) under the same name is
+        still what `module:qual` means: follow the import."""
+        head, _, rest = qual.partition(".")
+        kind, obj = self.resolve_name(module, head)
+        if kind == "func" and not rest:
+            return obj
+        if kind == "class":
+            if not rest:
+                return obj
+            return self.funcs.get(f"{obj.module.name}:{obj.name}.{rest}")
+        return None
+
     def func(self, module: str, qual: str) -> FuncInfo:
         k = f"{module}:{qual}"
         if k not in self.funcs:
+            r = self._follow_reexport(module, qual) if module in self.modules else None
+            if isinstance(r, FuncInfo):
+                return r
             raise AnalysisError(f"anchor vanished: function {k}")
         return self.funcs[k]
 
     def maybe_func(self, module: str, qual: str) -> Optional[FuncInfo]:
-        return self.funcs.get(f"{module}:{qual}")
+        r = self.funcs.get(f"{module}:{qual}")
+        if r is None and module in self.modules:
+            x = self._follow_reexport(module, qual)
+            r = x if isinstance(x, FuncInfo) else None
+        return r
 
     def cls(self, module: str, name: str) -> ClassInfo:
         k = f"{module}:{name}"
         if k not in self.classes:
+            r = self._follow_reexport(module, name) if module in self.modules else None
+            if isinstance(r, ClassInfo):
+                return r
             raise AnalysisError(f"anchor vanished: class {k}")
         return self.classes[k]
 
